@@ -68,6 +68,16 @@ fn mk(r: &mut StdRng) -> Vec<u8> {
             2 => { m.extend_from_slice(&[0, 15, 0, 1, 0x80, 0, 0, 1]); m.extend_from_slice(&[0, 5, 0, 10, 1, b'm', 0]); }
             3 => { m.extend_from_slice(&[0, 2, 0, 1, 0, 0, 0, 60, 0, 0]); } // NS with RDLENGTH 0 (embedded name at the end of the RDATA)
             4 => { m.extend_from_slice(&[0, 33, 0, 1, 0, 0, 0, 9, 0, 9, 0, 1, 0, 2, 0, 3, 1, b's', 0]); }
+            _ if r.gen_bool(0.5) => {
+                // class CH type A (a name, usually compressed, and a 16-bit address), SRV in and outside class IN
+                let mut rd = rd_name(r, qd);
+                rd.extend_from_slice(&[1, r.gen()]);
+                if r.gen_bool(0.5) { push_rr(&mut m, 1, 3, &rd); } else {
+                    let mut srv = vec![0, 1, 0, 2, 0, 53];
+                    srv.extend(rd_name(r, qd));
+                    push_rr(&mut m, 33, *[1u16, 3, 4].choose(r).unwrap(), &srv);
+                }
+            }
             _ => { m.extend_from_slice(&[0xff, 0, 0, 1, 0, 0, 0, 0, 0, 3, 9, 9, 9]); }
         }
     }
@@ -86,9 +96,14 @@ fn mutate(r: &mut StdRng, m: &mut Vec<u8>) {
 }
 
 fn drive(r: &mut StdRng, out: &mut Out, msg: Vec<u8>) {
+    let plan: Vec<u8> = (0..r.gen_range(1..14)).map(|_| r.gen_range(0..10u8)).collect();
+    drive_plan(out, msg, plan);
+}
+
+/// plan: 0 read_question, 1 skip_question, 2 read_rr, 3 skip_rr, 4 peek+skip, 5 peek+parse, 6 peek+drop, 7 mark, 8 rewind, 9 peek+owner
+fn drive_plan(out: &mut Out, msg: Vec<u8>, plan: Vec<u8>) {
     let mut ops: Vec<Value> = Vec::new();
     let m2 = msg.clone();
-    let plan: Vec<u8> = (0..r.gen_range(1..14)).map(|_| r.gen_range(0..10u8)).collect();
     let res = catch_unwind(AssertUnwindSafe(|| {
         let mut rd = Reader::try_from(&m2[..]).unwrap();
         let mut marked = false;
@@ -140,6 +155,33 @@ pub fn main(args: &[String]) {
         let mut msg = mk(&mut r);
         mutate(&mut r, &mut msg);
         drive(&mut r, &mut out, msg);
+    }
+    // (a') messages of 8..16 KiB: a name written in full beyond offset 4096 / 8192 / 12288 and later owner and RDATA names
+    // that point at it (a pointer's offset uses all fourteen bits)
+    for target in [4095usize, 4096, 8191, 8192, 8193, 12288, 16000] {
+        if n < 50 && target % 4096 != 0 { continue; }
+        let mut m = vec![r.gen::<u8>(), r.gen(), 0x84, 0, 0, 1, 0, 3, 0, 0, 0, 0];
+        m.extend_from_slice(b"\x03www\x07example\x04test\x00");
+        m.extend_from_slice(&[0, 1, 0, 1]);
+        // filler: one record of an unknown type whose RDATA brings the next owner to `target`
+        let fixed = m.len() + 1 + 10;
+        let rdlen = target - fixed;
+        m.push(0);
+        m.extend_from_slice(&[0xff, 0x00, 0, 1, 0, 0, 0, 60]);
+        m.extend_from_slice(&(rdlen as u16).to_be_bytes());
+        m.extend((0..rdlen).map(|i| (i % 253) as u8));
+        assert_eq!(m.len(), target);
+        m.extend_from_slice(b"\x03far\x03off\x00");
+        m.extend_from_slice(&[0, 1, 0, 1, 0, 0, 0, 60, 0, 4, 10, 0, 0, 1]);
+        // NS record: owner = pointer to "far.off.", RDATA = "ns" + pointer to "off."
+        m.extend_from_slice(&[0xc0 | (target >> 8) as u8, (target & 0xff) as u8]);
+        m.extend_from_slice(&[0, 2, 0, 1, 0, 0, 0, 60, 0, 5, 2, b'n', b's']);
+        m.extend_from_slice(&[0xc0 | ((target + 4) >> 8) as u8, ((target + 4) & 0xff) as u8]);
+        // the question, the filler skipped, then the two records read / peeked in the three ways the Reader offers
+        drive_plan(&mut out, m.clone(), vec![0, 3, 2, 2]);
+        drive_plan(&mut out, m.clone(), vec![0, 3, 3, 5]);
+        drive_plan(&mut out, m.clone(), vec![0, 4, 3, 9, 2]);
+        drive(&mut r, &mut out, m);
     }
     // (b) real server responses (written by the real Writer, with compression) and mutations
     let src = IpAddr::V4(Ipv4Addr::LOCALHOST);
